@@ -1186,14 +1186,14 @@ def _i_min(it, args, kw, node, fi):
     vals = args if len(args) > 1 else it.iterate(args[0], node, fi)
     if all(is_num(v) for v in vals):
         return min(nf.frac(v) for v in vals)
-    return nf.fn("min", *[v for v in vals])
+    return nf.fn("min", *sorted(vals, key=lambda v: repr(Rat.lift(v).key())))
 
 
 def _i_max(it, args, kw, node, fi):
     vals = args if len(args) > 1 else it.iterate(args[0], node, fi)
     if all(is_num(v) for v in vals):
         return max(nf.frac(v) for v in vals)
-    return nf.fn("max", *[v for v in vals])
+    return nf.fn("max", *sorted(vals, key=lambda v: repr(Rat.lift(v).key())))
 
 
 def _i_sum(it, args, kw, node, fi):
